@@ -93,9 +93,9 @@ var cfgVariants = []cfgOpts{
 		CallbackURI: "https://app.test/callback", ClientID: "client-1", Secret: "SECRET-s3cr3t/+=&"},
 	{Prefix: "my-app", Access: false, Logout: true, Scopes: []string{"openid"}, IDHeader: "x-id-token", IDPreamble: "",
 		CallbackURI: "https://app.test:443/oauth/cb", ClientID: "client two", Secret: "SECRET-p w"},
-	{Prefix: "x", Access: true, Logout: false, Scopes: []string{"profile", "openid", "a b"}, IDHeader: "authorization", IDPreamble: "Bearer", ATHeader: "x-at", ATPreamble: "",
+	{Prefix: "x", Access: true, Logout: false, Scopes: []string{"profile", "openid", "a b", "urn:x:read+write", "billing&invoices=1"}, IDHeader: "authorization", IDPreamble: "Bearer", ATHeader: "x-at", ATPreamble: "",
 		CallbackURI: "http://app.test:80/cb%20x", ClientID: "c&3=?", Secret: "SECRET-x", AuthQuery: "tenant=t1&x=a%20b"},
-	{Prefix: "p_1", Access: true, Logout: true, Scopes: []string{"openid"}, IDHeader: "x-tok", IDPreamble: "ID", ATHeader: "x-tok", ATPreamble: "AT",
+	{Prefix: "p_1/eu:prod@x y", Access: true, Logout: true, Scopes: []string{"openid"}, IDHeader: "x-tok", IDPreamble: "ID", ATHeader: "x-tok", ATPreamble: "AT",
 		CallbackURI: "https://app.test:8443/callback", ClientID: "client-4", Secret: "SECRET-4"},
 	// endpoints, keys and end-session URI discovered; the discovered authorization endpoint has a query of its own
 	{Prefix: "d", Access: true, Logout: true, Scopes: []string{"openid", "profile"}, IDHeader: "authorization", IDPreamble: "Bearer", ATHeader: "x-access-token", ATPreamble: "",
